@@ -110,6 +110,8 @@ class Gen:
             return {"t": "map", "m": [{"k": b64("x"), "v": self.any_value(depth + 1)}, {"k": b64(self.bytes_()), "v": self.any_value(depth + 1)}]}
         if c == 7:
             return {"t": "slice", "m": [{"k": b64(""), "v": self.any_value(depth + 1)} for _ in range(r.randrange(3))]}
+        if r.random() < 0.5:
+            return {"t": "badjson", "s": b64(self.bytes_())}    # MarshalJSON fails with an error text of arbitrary bytes
         return {"t": "float64", "x": f64bits(math.nan)}     # json.Marshal fails: zerolog renders a "marshaling error" string
 
     def scalar_op(self, kname, builder, keyed=True):
